@@ -212,3 +212,104 @@ fcontract('FlagsEnum', '_decode', [
     Case('any-int', 'return', lambda pre: t.TRUE, rkind=rk_dyn, ensures=_fe_decode_ok),
 ], loops={'for (name, value) in self.flags.items()': LoopSpec(_fe_inv, tags=TM)}, tags=TM, sub_seq=False,
     requires=lambda pre: [('obj-is-int', _isint(pre['obj'].t))])
+
+
+# ------------------------------------------------------------------------------------------------ FlagsEnum._encode (C13, C03, C02)
+# An integer passes through unchanged.  A mapping label -> truth value encodes to the bitwise OR of the masks of the labels whose value
+# is true (labels starting with '_' are ignored); a string "a|b|c" to the OR of the masks of its non-empty, stripped parts.  A label
+# the flags table does not know is MappingError.  Anything else is MappingError.
+prelude.declare_fun('cont_len', ['Keys'], t.INT)
+prelude.declare_fun('cont_key', ['Keys', t.INT], t.STR)
+prelude.declare_fun('split_count', [t.STR, t.STR], t.INT)
+prelude.declare_fun('split_part', [t.STR, t.STR, t.INT], t.STR)
+prelude.declare_fun('str_strip', [t.STR], t.STR)
+prelude.define('fe_dict_val', """(define-fun-rec fe_dict_val ((m Int) (H (Array Int (Array String Val))) (D (Array Int (Array String Bool))) (a Int) (k Int)) Int
+  (ite (<= k 0) 0
+  (let ((key (cont_key (select D a) (- k 1))))
+  (ite (and (not (str.prefixof "_" key)) (truthy (select (select H a) key)))
+       (bor (fe_dict_val m H D a (- k 1)) (ival (map_get m (VStr key))))
+       (fe_dict_val m H D a (- k 1))))))""", deps=['cont_key', 'truthy', 'bor', 'map_get'])
+prelude.define('fe_dict_ok', """(define-fun-rec fe_dict_ok ((m Int) (H (Array Int (Array String Val))) (D (Array Int (Array String Bool))) (a Int) (k Int)) Bool
+  (ite (<= k 0) true
+  (let ((key (cont_key (select D a) (- k 1))))
+  (and (fe_dict_ok m H D a (- k 1))
+       (=> (and (not (str.prefixof "_" key)) (truthy (select (select H a) key))) (map_has m (VStr key)))))))""", deps=['cont_key', 'truthy', 'map_has'])
+prelude.define('fe_str_val', """(define-fun-rec fe_str_val ((m Int) (s String) (k Int)) Int
+  (ite (<= k 0) 0
+  (let ((part (str_strip (split_part s "|" (- k 1)))))
+  (ite (> (str.len part) 0) (bor (fe_str_val m s (- k 1)) (ival (map_get m (VStr part)))) (fe_str_val m s (- k 1))))))""", deps=['split_part', 'str_strip', 'bor', 'map_get'])
+prelude.define('fe_str_ok', """(define-fun-rec fe_str_ok ((m Int) (s String) (k Int)) Bool
+  (ite (<= k 0) true
+  (let ((part (str_strip (split_part s "|" (- k 1)))))
+  (and (fe_str_ok m s (- k 1)) (=> (> (str.len part) 0) (map_has m (VStr part)))))))""", deps=['split_part', 'str_strip', 'map_has'])
+
+
+def _fe_obj(pre):
+    return pre['obj'].t
+
+
+def _fe_dict_terms(pre, k):
+    m = pre.self.fields['flags']
+    a = t.app('ref', t.INT, _fe_obj(pre))
+    H, D = pre.st.ghost['H'], pre.st.ghost['D']
+    return t.app('fe_dict_val', t.INT, m.ident, H, D, a, k), t.app('fe_dict_ok', t.BOOL, m.ident, H, D, a, k), t.app('cont_len', t.INT, t.T('Keys', 'select', (D, a)))
+
+
+def _fe_str_terms(pre, k):
+    m = pre.self.fields['flags']
+    s = t.app('sval', t.STR, _fe_obj(pre))
+    return t.app('fe_str_val', t.INT, m.ident, s, k), t.app('fe_str_ok', t.BOOL, m.ident, s, k), t.app('split_count', t.INT, s, S('|'))
+
+
+def _fe_unfold(fnv, fnok, args, k):
+    """definitional unfolding of the two folds at k (an obligation of its own where it is used)"""
+    return None
+
+
+def _fe_dict_inv(L):
+    pre = L.extra['pre']
+    val, ok, n = _fe_dict_terms(pre, L.k)
+    fl = L['flags']
+    return [('flags-so-far-is-the-OR-of-the-masks-of-the-true-labels-seen', t.and_(ok, t.eq(L.eng.as_int(fl, L.st)[0], val)))]
+
+
+def _fe_str_inv(L):
+    pre = L.extra['pre']
+    val, ok, n = _fe_str_terms(pre, L.k)
+    fl = L['flags']
+    return [('flags-so-far-is-the-OR-of-the-masks-of-the-labels-seen', t.and_(ok, t.eq(L.eng.as_int(fl, L.st)[0], val)))]
+
+
+def _fe_kind(pre):
+    v = _fe_obj(pre)
+    isint = t.app('isint', t.BOOL, v)
+    isstr = t.app('(_ is VStr)', t.BOOL, v)
+    isdict = t.app('(_ is VRef)', t.BOOL, v)
+    return isint, isstr, isdict
+
+
+def _fe_encode_ok(pre, post):
+    isint, isstr, isdict = _fe_kind(pre)
+    r = post.eng.as_int(post.result, post.st)[0]
+    dv, dok, dn = _fe_dict_terms(pre, None) if False else (None, None, None)
+    m = pre.self.fields['flags']
+    a = t.app('ref', t.INT, _fe_obj(pre))
+    H, D = pre.st.ghost['H'], pre.st.ghost['D']
+    dn = t.app('cont_len', t.INT, t.T('Keys', 'select', (D, a)))
+    dv = t.app('fe_dict_val', t.INT, m.ident, H, D, a, dn)
+    s = t.app('sval', t.STR, _fe_obj(pre))
+    sn = t.app('split_count', t.INT, s, S('|'))
+    sv = t.app('fe_str_val', t.INT, m.ident, s, sn)
+    return [('an-integer-passes-through-unchanged', t.implies(isint, t.eq(r, t.app('toint', t.INT, _fe_obj(pre)))), TM + ('C02',)),
+            ('a-string-encodes-to-the-OR-of-the-masks-of-its-labels', t.implies(t.and_(t.not_(isint), isstr), t.eq(r, sv)), TM + ('C02',)),
+            ('a-mapping-encodes-to-the-OR-of-the-masks-of-its-true-labels', t.implies(t.and_(t.not_(isint), t.not_(isstr), isdict), t.eq(r, dv)), TM + ('C02',))]
+
+
+def _fe_encode_bad(pre, post):
+    return [('anything-refused-is-MappingError', exc_is(post, 'MappingError'), TM)] + list(generic_raise(pre, post))
+
+
+fcontract('FlagsEnum', '_encode', [
+    Case('ok', 'return', lambda pre: t.TRUE, rkind=rk_dyn, ensures=_fe_encode_ok),
+    Case('refused', 'raise', lambda pre: t.TRUE, ensures=_fe_encode_bad),
+], loops={"for name in obj.split('|')": LoopSpec(_fe_str_inv, tags=TM), 'for (name, value) in obj.items()': LoopSpec(_fe_dict_inv, tags=TM)}, tags=TM + ('C02',), sub_seq=False)
